@@ -232,3 +232,111 @@ func vrtHFromByteAt(last byte) *factom.Bytes32 {
 	h[31] = last
 	return &h
 }
+
+// VerifHistoryPages: C17 across pages. N > QueryLimit one-transaction batches entered at one
+// height (amounts symbolic) are read back by height or by address, ascending or descending,
+//   walk = 1: page after page the way a client does (next offset = offset + actions returned while
+//             that is below the count): every recorded action comes back exactly once, in order;
+//   walk = 0: at an arbitrary offset 0..N+1: the page is rows[offset : offset+QueryLimit] of the
+//             ordered history, the count is N, an offset above the count is refused.
+func VerifHistoryPages() {
+	p := &Pegnet{DB: vrt.NewDB()}
+	if err := p.createTables(); err != nil {
+		panic(err)
+	}
+	N := vrt.Param("rows", QueryLimit+3)
+	A, B := vrtAddr(0xA1), vrtAddr(0xB2)
+	height := uint32(250000)
+	tx, err := p.DB.Begin()
+	if err != nil {
+		panic(err)
+	}
+	hashes := make([]*factom.Bytes32, N)
+	amts := make([]uint64, N)
+	for i := 0; i < N; i++ {
+		var h factom.Bytes32
+		h[0], h[1], h[31] = 0x5A, byte(i>>8), byte(i)
+		hashes[i] = &h
+		amts[i] = uint64(1000 + i)
+		if i == 0 || i == QueryLimit-1 || i == QueryLimit || i == N-1 {
+			amts[i] = vrt.URange("amt", 1, 1<<40) // the rows at the page edges carry arbitrary amounts
+		}
+		e := new(fat2.TransactionBatch)
+		e.Version = 1
+		e.Entry.Hash = hashes[i]
+		e.Entry.Timestamp = time.Unix(1600000000+int64(i), 0)
+		var t fat2.Transaction
+		t.Input.Address, t.Input.Type, t.Input.Amount = A, fat2.PTickerUSD, amts[i]
+		t.Transfers = []fat2.AddressAmountTuple{{Address: B, Amount: amts[i]}}
+		e.Transactions = []fat2.Transaction{t}
+		if err := p.InsertTransactionHistoryTxBatch(tx, i, e, height); err != nil {
+			panic(err)
+		}
+	}
+	if err := tx.Commit(); err != nil {
+		panic(err)
+	}
+	var opt HistoryQueryOptions
+	opt.Desc = vrt.Choose("desc", 2) == 1
+	byAddr := vrt.Choose("byAddress", 2) == 1
+	ask := func(off int) ([]HistoryTransaction, int, error) {
+		o := opt
+		o.Offset = off
+		if byAddr {
+			return p.SelectTransactionHistoryActionsByAddress(&B, o)
+		}
+		return p.SelectTransactionHistoryActionsByHeight(height, o)
+	}
+	// position k of the ordered history is row idx(k)
+	idx := func(k int) int {
+		if opt.Desc {
+			return N - 1 - k
+		}
+		return k
+	}
+	same := func(g HistoryTransaction, i int) bool {
+		return g.Hash != nil && *g.Hash == *hashes[i] && g.TxIndex == 0 && g.FromAmount == int64(amts[i]) && g.Height == int64(height)
+	}
+	if vrt.Param("walk", 1) == 1 {
+		vrt.Cover("walked")
+		off, seen, pages := 0, 0, 0
+		for {
+			got, count, err := ask(off)
+			pages++
+			vrt.Assert("C17.history-query-succeeds", err == nil)
+			vrt.Assert("C17.count-equals-number-of-matching-actions", count == N)
+			if err != nil || pages > N {
+				return
+			}
+			for k, g := range got {
+				vrt.Assert("C17.pages-return-every-action-once-in-order", seen+k < N && same(g, idx(seen+k)))
+			}
+			seen += len(got)
+			if off+len(got) < count && len(got) > 0 {
+				off += len(got) // what the API hands out as nextoffset
+				continue
+			}
+			break
+		}
+		vrt.Assert("C17.pages-return-every-action-once-in-order", seen == N)
+		return
+	}
+	off := vrt.Choose("offset", N+2)
+	got, count, err := ask(off)
+	if off > N {
+		vrt.Cover("offset-above-count")
+		vrt.Assert("C17.offset-above-the-count-is-refused", err != nil)
+		return
+	}
+	vrt.Cover("page")
+	vrt.Assert("C17.history-query-succeeds", err == nil)
+	vrt.Assert("C17.count-equals-number-of-matching-actions", count == N)
+	want := N - off
+	if want > QueryLimit {
+		want = QueryLimit
+	}
+	vrt.Assert("C17.page-is-the-slice-of-the-ordered-history-at-its-offset", len(got) == want)
+	for k, g := range got {
+		vrt.Assert("C17.page-is-the-slice-of-the-ordered-history-at-its-offset", off+k < N && same(g, idx(off+k)))
+	}
+}
